@@ -481,6 +481,7 @@ def execute(case):
         "states": sorted(states),
         "nontrivial": bool(probes.get("related-with-separating", 0)),
         "steps": len(ops),
+        "schedule": h64("sched", tuple(op.get("client") for op in ops)) & ((1 << 48) - 1),
     }
 
 
@@ -1059,3 +1060,6 @@ def post_checks(tier, verif_seed):
     if mismatches:
         raise kernel.HarnessError("fork oracle disagrees with fresh interpreters: %s" % json.dumps(mismatches[:3]))
     return {"fork_oracle_vs_fresh_interpreter": {"queries": n, "mismatches": 0}}
+
+
+STATE_MEASURE = 'distinct (set of classes asked so far, class asked now) pairs'
